@@ -22,6 +22,12 @@ def check(rep, tier, replay=None):
         "switch constant), double, tolerance 1e-5; >= 100x the tolerance is a violation.")
     roundir.run(rep, tier, "C05", ["d2rexp", "d2rinv"], 1e-5, None, max_angle={"d2rexp": math.pi - 1e-3, "d2rinv": math.pi - 1e-3})
     check_df(rep)
+    import dfm
+    rep.explanations.append(
+        "Rule DF.exec (props/dfm.py, engine M): d_matrix_product and d2_fog are executed from the AST on symbolic matrices for fixed-size, fully dynamic and mixed "
+        "instantiations, with a dense and a sparse outer Jacobian; every block must equal the product / chain rule as a polynomial identity, no view may leave its matrix, and a "
+        "fixed-size view whose extent is Eigen::Dynamic (which does not compile) is reported.")
+    dfm.check(rep, tier)
 
 
 def check_df(rep):
